@@ -28,5 +28,6 @@ INVARIANT ReliableNeverSkipped
 INVARIANT RxAllocBound
 INVARIANT TxRespectsPeer
 INVARIANT NoPlaceholderBetweenHonest
+INVARIANT RxWithinTx
 INVARIANT BufferSizeExact
 CHECK_DEADLOCK FALSE
